@@ -16,7 +16,7 @@ pub fn meta() -> Meta {
     Meta {
         id: "C08",
         level: "model_checking",
-        rule: "explicit-state BFS over the subset lattice: state = .skf content (hidden fields included) of the remaining samples, actions = the real generic_modes::delete of every non-empty proper subset of the current names, the names given in every order (up to three names; file order, reversed and rotated above) (quick: n<=5; thorough: n<=6, and n=8 with single and double deletions), so every subset is reached along every chain; invariant in every state: the file equals the model table and the real fresh build of the remaining samples (order kept, rows of deleted-only k-mers gone, stored counts = fresh counts). CLI family: names on the command line vs one-per-line names file (with/without trailing newline, blank line), in place and with -o; refusals (unknown name, all samples) must exit non-zero and leave the file byte-identical. Search paths are re-executed through `ska delete`.".into(),
+        rule: "explicit-state BFS over the subset lattice: state = .skf content (hidden fields included) of the remaining samples, actions = the real generic_modes::delete of every non-empty proper subset of the current names, the names given in every order (up to three names; file order, reversed and rotated above) (quick: n<=5 and n=7 with single deletions; thorough: n<=6 and the full lattice for n=8), so every subset is reached along every chain; invariant in every state: the file equals the model table and the real fresh build of the remaining samples (order kept, rows of deleted-only k-mers gone, stored counts = fresh counts). CLI family: names on the command line vs one-per-line names file (with/without trailing newline, blank line), in place and with -o; refusals (unknown name, all samples) must exit non-zero and leave the file byte-identical. Search paths are re-executed through `ska delete`.".into(),
         assumptions: vec!["sorted-row canonical form: delete treats rows independently".into()],
         exhaustive_when_uncapped: false,
     }
@@ -217,7 +217,7 @@ fn cli_family(ctx: &Ctx, rep: &mut Report, idx: &mut u64) {
 pub fn run(ctx: &Ctx, rep: &mut Report) {
     let thorough = ctx.tier.thorough();
     let cfgs: Vec<(usize, bool, usize, usize)> = if thorough {
-        vec![(7, true, 6, 8), (31, true, 5, 8), (33, true, 5, 8), (63, false, 4, 8), (7, true, 8, 2)]
+        vec![(7, true, 6, 8), (31, true, 5, 8), (33, true, 6, 8), (63, false, 5, 8), (7, true, 8, 8)]
     } else {
         vec![(7, true, 5, 8), (33, true, 4, 8), (31, false, 3, 8), (9, true, 7, 1)]
     };
